@@ -46,9 +46,11 @@ func main() {
 	r := vf.NewRun("C24", "exploration",
 		"(1) structured: seeded values of each of the 21 message types in 4 size classes (empty lists / one of everything / random / lists at their documented maximum), distinct by frame bytes; "+
 			"(2,3) hostile, in supervised child processes: for valid payloads of every type — every prefix, every position overwritten with the count grid {0,1,MAX,MAX+1,2^16..2^24,2^31,2^32-1,2^63,2^64-1,…} as u8/u16/u32/u64/var-uint (canonical and non-canonical), random byte edits, alternative public-key encodings, lists beyond the maxima, noise, bodies under foreign/unknown commands; "+
-			"streams with foreign magic, oversized/lying length, damaged checksum, truncation at every offset, the largest legal frame, consecutive frames, noise; a hostile case is distinct by (kind, command, bytes)")
+			"streams with foreign magic, oversized/lying length, damaged checksum, truncation at every offset, the largest legal frame, consecutive frames, noise; a hostile case is distinct by (kind, command, bytes); "+
+			"(4) allocation volume: well-formed list/blob/padded payloads of every type scaled to 48 KiB … several MiB (thorough: to the maximum payload size), one position overwritten (u16/u32/u64/var-uint) with a claim near the payload length, a fraction of it, 2^31, 2^32-1, 2^63, 2^64-1 — distinct by (base recipe, position, width, value); "+
+			"(5) real connections: seeded schedules of pipelined well-formed frames over net.Pipe / loopback TCP into link.Link.Rx with a pausing consumer and a concurrent closer (8 close modes) — distinct by (schedule, frames)")
 	initKeys()
-	if os.Getenv("C24_ONLY") == "" {
+	if only := os.Getenv("C24_ONLY"); only == "" || strings.Contains(only, "structured") {
 		structured(r)
 	}
 	hostile(r)
@@ -73,7 +75,51 @@ func main() {
 		r.Require(k, 1)
 	}
 	r.Require("stream:max-length", 1)
+	// allocation-volume oracle
+	for _, sp := range specs {
+		r.Require("alloc_base:"+sp.cmd, 1)
+		if sp.cmd != pc.GetADDR_TYPE { // an empty body has no position to overwrite
+			r.Require("alloc_case:"+sp.cmd, 40)
+		}
+	}
+	for _, k := range []string{"alloc_base_shape:list", "alloc_base_shape:blob", "alloc_base_shape:dense", "alloc_base_shape:pad"} {
+		r.Require(k, 4)
+	}
+	r.Require("alloc_claim:near-length", 2000)
+	r.Require("alloc_claim:fraction-of-length", 2000)
+	r.Require("alloc_claim:huge", 1000)
+	for _, k := range []string{"alloc_width:u16", "alloc_width:u32", "alloc_width:u64", "alloc_width:var"} {
+		r.Require(k, 800)
+	}
+	r.Require("alloc_case_size:under-256KiB", 4000)
+	r.Require("alloc_case_size:256KiB-2MiB", 500)
+	r.Require("alloc_case_size:MiBs", 300)
+	r.Require("alloc_rejected", 1000)
+	r.Require("alloc_accepted", 1000)
+	if vf.Thorough() {
+		r.Require("alloc_case_size:max", 300)
+	}
+	// real-connection family
+	r.Require("link:schedules", int64(vf.N(500, 8000)))
+	r.Require("link_transport:pipe", 200)
+	r.Require("link_transport:tcp", 60)
+	seenMode := map[string]bool{}
+	for _, m := range closeModes {
+		if !seenMode[m] {
+			seenMode[m] = true
+			r.Require("link_close:"+m, 15)
+		}
+	}
+	r.Require("link_single_write", 150)
+	r.Require("link_close_while_rx_parked", 40)
+	r.Require("link_delivered", 2000)
+	r.Require("link_delivered_after_close", 300)
+	r.Require("link_getdata_delivered_after_close", 30)
+	r.Require("link_skipped_between_deliveries", 30)
+	r.Require("link_all_delivered", 100)
 	r.Assume("'allocates' is measured as bytes obtained in large objects (> 32 KiB: one make/growslice sized by a count) during one ReadMessage; allowance for L payload bytes = header + L + 256·L + 64 KiB; the small-object garbage of honest work on bytes that are present (big.Int arithmetic of public-key decompression) is not counted; for the rejected-before-the-buffer clause (wrong magic, oversized length) the total is measured instead and must stay ≤ 4 KiB")
+	r.Assume("allocation-volume oracle: the bytes one ReadMessage allocates (runtime.MemStats.TotalAlloc, and its part in objects above the largest reported size class; GOMAXPROCS=1, one goroutine) for a payload whose count/length field claims more than the payload holds must stay ≤ 4 × what the same tree allocates for the well-formed payload of the same type, shape and length it was derived from (every count truthful; measured in the same process) + 64 KiB + 4 × one public-key decode, and ≤ 16 × MAX_PAYLOAD_LEN; an excess is re-measured twice and the minimum decides")
+	r.Assume("link family: Link.Rx, CloseConn and Send run in goroutines of a child process over net.Pipe / loopback TCP; sleeps and yields shape the interleaving only; Rx may drop unknown commands and repeated getdata requests, and a closed link delivers a prefix, so the delivered frames are required to be a subsequence (in sending order) of the sent frames, each byte-identical when re-serialized after the schedule has ended")
 	r.Assume("domain notes (documented decoder leniencies, checked with a weaker clause and counted as exempt:*): addr/inv clamp to 64 entries; version without/with unreadable SoftVersion; block body that ends before MerkleRoot‖hasCCMsg or has an unreadable flag (\"to accept old node's block\")")
 	r.Assume("'reproduces the payload' is read as: re-serialization equals the prefix of the payload the type's decoder consumed (trailing bytes are ignored by ReadMessage by design)")
 	r.Assume("getmembers timestamps are drawn from year 2097+ so the decoder's wall-clock expiry check never decides a verdict")
